@@ -37,11 +37,14 @@ package x509
 // RFC 6125 6.4.1: ASCII-only lower-casing; same length, byte i is lc(in[i]).
 //@ pred lowered(r, s) = len(r) == len(s) && forall(k, 0, len(s), r[k] == spec.lc(s[k]))
 //@ func toLowerCaseASCII
+//@   loop 1 invariant 0 <= rpos() && rpos() <= len(in)
+//@   loop 1 invariant forall(j, 0, rpos(), !('A' <= in[j] && in[j] <= 'Z'))
 //@   loop 2 invariant 0 <= it && it <= len(out) && len(out) == len(in) && fresh(out)
 //@   loop 2 invariant forall(k, 0, it, out[k] == spec.lc(in[k]))
 //@   loop 2 invariant forall(k, it, len(in), out[k] == in[k])
 //@   loop 2 decreases len(out) - it
 //@   ensures len(result) == len(in)
+//@   ensures [pointwise] lowered(result, in)
 //@   ensures result == in || result == spec.lower(in)
 
 // Documented matching rule (crypto/x509 VerifyHostname; RFC 6125 6.4.3 as implemented):
